@@ -89,13 +89,92 @@ def semantic_witness(got, want, sql):
         return {'note': 'witness search not applicable: %r' % e}
 
 
+# ---- LEXZ3: operator tokens made of several words are ONE token whatever blanks separate the words -------------------------------
+
+BLANKS = ' \t\n\r'
+_CONTEXTS = ['SELECT a {w} NULL', 'SELECT a {w} b', 'SELECT a {w} (1, 2)', "SELECT a {w} 'x'", 'SELECT {w} a', 'SELECT a FROM t WHERE a {w} NULL', 'SELECT a FROM t WHERE a {w} (1)',
+             'SELECT a {w} 1 AND 2']
+
+
+def blank_invariance(run, tier):
+    """For every rule of the three live lexers whose language is made of words and blanks only (decided by z3), z3 is asked for a
+    member w = x + a + y with a blank a and another blank b such that x + b + y is NOT in the rule's language (lengths <= 24).  unsat:
+    how the words of a multi-word token are separated (space, tab, line break) cannot change the token.  A model is replayed on the real
+    lexer and parser: the same expression written with the other blank must give the same tree."""
+    import z3
+    from engines import lexz3
+    from engines import sweep as SW2
+    from mindsdb_sql import parse_sql
+    maxlen = 24 if tier == 'quick' else 32
+    blank = z3.Union(*[z3.Re(c) for c in BLANKS])
+    wordish = z3.Star(z3.Union(lexz3.WORD, blank))
+    for d in SW2.DIALECTS:
+        L, P = SW2.dialect_classes(d)
+        lm = lexz3.LexerModel(L)
+        n_rules, bad = 0, []
+        for name, pat, r, lb, tb in lm.rules:
+            if r is None:
+                continue
+            w = z3.String('w')
+            res, _ = lm.check(z3.InRe(w, r), z3.Not(z3.InRe(w, wordish)), z3.Length(w) <= maxlen)
+            if res != 'unsat':
+                continue            # strings, comments, numbers, operators made of symbols: blanks inside them are content
+            res, _ = lm.check(z3.InRe(w, r), z3.Contains(w, z3.StringVal(' ')), z3.Length(w) <= maxlen)
+            has_blank = res == 'sat'
+            if not has_blank:
+                res2, _ = lm.check(z3.InRe(w, r), z3.InRe(w, z3.Concat(z3.Star(lexz3.ASCII), blank, z3.Star(lexz3.ASCII))), z3.Length(w) <= maxlen)
+                if res2 != 'sat':
+                    continue        # one-word token
+            n_rules += 1
+            x, y, a, b = z3.String('x'), z3.String('y'), z3.String('a'), z3.String('b')
+            res, m = lm.check(z3.InRe(a, blank), z3.InRe(b, blank), z3.InRe(z3.Concat(x, a, y), r), z3.Not(z3.InRe(z3.Concat(x, b, y), r)),
+                              z3.Length(x) + z3.Length(y) < maxlen)
+            if res == 'unsat':
+                continue
+            if res != 'sat':
+                run.ob('lexz3:%s:blank-invariance:%s' % (d, name), 'inconclusive', res)
+                continue
+            w1 = m.eval(z3.Concat(x, a, y), model_completion=True).as_string()
+            w2 = m.eval(z3.Concat(x, b, y), model_completion=True).as_string()
+            w1, w2 = (w1.encode().decode('unicode_escape') if '\\u' in w1 else w1), (w2.encode().decode('unicode_escape') if '\\u' in w2 else w2)
+            bad.append((name, w1, w2))
+        run.add_stats({'solver_calls': lm.queries, 'solver_s': lm.solver_s})
+        reproduced = 0
+        for name, w1, w2 in bad:
+            # native replay: an expression written with w1 and with w2 must parse to the same tree
+            info = {'dialect': d, 'rule': name, 'token_text': w1, 'other_blank': w2}
+            rep = False
+            for ctx in _CONTEXTS:
+                try:
+                    t1 = parse_sql(ctx.format(w=w1), d)
+                except Exception:  # noqa
+                    continue
+                try:
+                    t2 = parse_sql(ctx.format(w=w2), d)
+                except Exception as e:  # noqa
+                    info.setdefault('rejected_with_other_blank', []).append(ctx.format(w=w2))
+                    continue
+                if t1.to_tree() != t2.to_tree():
+                    rep = True
+                    info.update(sql=ctx.format(w=w1), sql_other_blank=ctx.format(w=w2), tree=str(t1), tree_other_blank=str(t2))
+                    break
+            if rep:
+                reproduced += 1
+                run.counterexample('blank-in-operator:%s:%s' % (d, name), '%s: %r groups differently from %r (the words of the operator separated by another blank)'
+                                   % (d, info['sql_other_blank'], info['sql']), info, True)
+            else:
+                run.sample({'note': 'token %s of %s is not blank-invariant (%r vs %r) but no expression context parses to a different tree (rejected or same tree): not a grouping difference' % (name, d, w1, w2)})
+        run.ob('lexz3:%s:multi-word-tokens-blank-invariant' % d, 'counterexample' if reproduced else 'discharged',
+               '%d multi-word word-and-blank rules, %d not invariant, %d change a parsed tree' % (n_rules, len(bad), reproduced))
+
+
 def run(tier):
     run = Run('C03', tier)
     main_K = (1, 2, 3, 4, 5, 6) if tier == 'quick' else (1, 2, 3, 4, 5, 6, 7)
     ctx_K = (1, 2, 3, 4) if tier == 'quick' else (1, 2, 3, 4, 5)
     run.bounds = {'select_list_expression_tokens': max(main_K), 'other_contexts_expression_tokens': max(ctx_K),
                   'alphabet': c03lib.EXPR_ALPHA, 'contexts': list(c03lib.CONTEXTS)}
-    run.functions = ['sly Parser.parse with the live LALR tables of the three dialects', 'expression grammar actions', 'live _lrtable.state_descriptions / lr_action (LRZ3)']
+    run.functions = ['sly Parser.parse with the live LALR tables of the three dialects', 'expression grammar actions', 'live _lrtable.state_descriptions / lr_action (LRZ3)', 'live lexer rule lists of the three dialects (LEXZ3: multi-word tokens)']
     run.assumptions = ['reference grouping = refs/precedence.py (the property\'s table); sequences the reference grammar does not cover (NOT as an operand of a tighter operator, binary NOT, function calls, subqueries) are counted as outside',
                        'a comparison that is a direct un-parenthesised operand of another comparison is skipped, as the property says',
                        'MINUS constant folding and ((x)) are normalised on both sides (semantics-preserving)',
@@ -158,6 +237,11 @@ def run(tier):
             run.ob(name, 'counterexample', '%d operator pairs' % len(wit))
         else:
             run.ob(name, 'inconclusive', r)
+    try:
+        blank_invariance(run, tier)
+    except Exception as e:  # noqa
+        import traceback
+        run.error('blank-invariance crashed: %r %s' % (e, traceback.format_exc()[-300:]))
     run.finish()
 
 
